@@ -254,6 +254,13 @@ def toggle_programs(draw):
     times = sorted(draw(st.lists(st.sampled_from(CTL_TIMES), min_size=3, max_size=6, unique=True)))
     ctl = []
     vals = [False] * nfl
+    # operands that hold already when the block is entered (and are withdrawn later, before the whole becomes true)
+    early = draw(st.booleans())
+    if early:
+        for i in range(nfl):
+            if draw(st.booleans()):
+                vals[i] = True
+                ctl.append({'op': 'set_flag', 'i': i, 'v': True})
     for t in times:
         ctl.append({'op': 'at_eq', 't': t})
         for _ in range(draw(st.integers(1, 2))):
@@ -265,7 +272,7 @@ def toggle_programs(draw):
     body = [{'op': 'sleep', 'd': draw(st.sampled_from([0.25, 0.5, 1, 2, 6]))} for _ in range(draw(st.integers(0, 2)))]
     body.append({'op': 'eternity'} if draw(st.integers(0, 3)) else {'op': 'sleep', 'd': 7})
     notif = ['named', 0] if draw(st.booleans()) else cond
-    steps = [{'op': 'sleep', 'd': draw(st.sampled_from([0, 0.25, 0.5]))},
+    steps = [{'op': 'sleep', 'd': draw(st.sampled_from([0.25, 0.5] if early else [0, 0.25, 0.5]))},
              {'op': 'until', 'notif': notif, 'children': [], 'body': body}, {'op': 'sleep', 'd': 0.5}]
     if draw(st.integers(0, 2)) == 0:
         steps = [{'op': 'until', 'notif': ['delay', draw(st.sampled_from([2, 4, 8]))], 'children': [], 'body': steps}]
